@@ -12,8 +12,8 @@ def run(ctx):
                       "verdict, reason, observed projection) tuples excluding unauthentic submissions. Monitor PropC22 decides every "
                       "mismatch and %d recorded random histories x %d steps. Oracle: accepted import => exactly one request record at CCM||request||u64(to)||relayTxHash whose bytes equal an independent encoding of ToMerkleValue(relay tx hash, source chain, verified message), exactly that value as exactly one cross-state leaf (sha256(0x00||value)) of the call; refused imports commit no record and no leaf." % (n, ln),
                       assumptions=["one relay-chain validator (operator = its address); vote thresholds are C25",
-                                   "valid imports exist for the vote, bsc and hsc routers only (synthetic chains, real seals and MPT proofs); "
-                                   "other routers share entrance.go but their handlers' done-check call sites are not executed",
+                                   "valid imports exist for the vote, ripple, eth, bsc, heco, hsc and bytom routers (synthetic chains, real PoSA seals, Ethash seal decided by the verif hook, real MPT proofs); "
+                                   "the other routers (coverage.routers_uncovered) share entrance.go but their handlers' done-check call sites are not executed",
                                    "a refused call's writes are discarded by the per-transaction cache reset (the ledger's rule, C15); "
                                    "'accepted' = success with an effect; an exact replay on the vote router answers success without effect",
                                    "router start block: relay height 18822999 vs 18823000 on main net; the hsc light client is synced at a later "
